@@ -722,6 +722,21 @@ func c18ready(c *Ctx, fn *ssa.Function, readyMap ssa.Value, states []string, ear
 					}
 				}
 			}
+			// (b') … or a flag that starts true before a loop over .children and is cleared by
+			// every iteration that finds a child not ready
+			for _, f := range conj {
+				ph, isPhi := f.Cond.(*ssa.Phi)
+				if !isPhi || !f.Pol {
+					continue
+				}
+				if it, ok := facts.AccumulatorFacts(ph, true); ok {
+					for _, a := range facts.Atoms(it) {
+						if strings.HasPrefix(a, readyPfx) && strings.Contains(a, ".children") {
+							okKids = true
+						}
+					}
+				}
+			}
 			if !okState {
 				bad = append(bad, fmt.Sprintf("way %d to true has no DONE/CANCELED/DEAD state fact: %s", k, facts.Join(conj)))
 			}
